@@ -451,4 +451,203 @@ Section Bal.
       + exists dflt. split; [reflexivity | exact Hd].
     - intro; subst o. exists dflt. split; [reflexivity | exact Hd].
   Qed.
+
+  (* ---------------- the main induction *)
+  Ltac step_first R IHc Hcs q Hq q1 o I :=
+    let E := fresh "E" in
+    match goal with |- context [pfirst R ?name q ?cs] =>
+      pose proof (pfirst_inv R name cs IHc Hcs q Hq) as I;
+      destruct (pfirst R name q cs) as [q1 o] eqn:E; cbn [fst snd] in I; clear E
+    end.
+
+  Lemma opt_piece q0 q1 x sub : nb_str x = true -> visible T (hd 0 x) = true -> x <> [] ->
+    pend_ok (pend q0) = true -> Inv q0 q1 sub ->
+    Inv q0 q1 (if nonempty (strip_l T sub) then lit (x ++ [123]) ++ sub ++ lit [125] else []).
+  Proof.
+    intros Hx Hv Hne Hq I. destruct (nonempty (strip_l T sub)) eqn:E.
+    - split; [apply (Inv_pend _ _ _ I)|]. rewrite !chars_app, !chars_lit. split.
+      + destruct x as [|c x]; [congruence|]. simpl in Hv. simpl. apply (lone_wit [] c). exact Hv.
+      + eapply DS_app; [apply DS_lit_open; exact Hx|].
+        eapply DS_app; [apply DS_S; apply (Inv_DS _ _ _ I) | apply DS_close].
+    - apply nonempty_false in E. pose proof (ws_same_len _ _ _ I E) as Hl.
+      split; [apply (Inv_pend _ _ _ I)|]. split; [reflexivity|]. rewrite Hl. apply DS_nil.
+  Qed.
+
+  Lemma process_inv : forall t,
+    NodeInv (process T fixed) t /\ Forall (NodeInv (process T fixed)) (ochildren t).
+  Proof.
+    apply omml_ind'. intros tag attrs text cs IH.
+    assert (IHc : Forall (NodeInv (process T fixed)) cs).
+    { eapply Forall_impl; [|exact IH]. intros a [Ha _]. exact Ha. }
+    assert (IHg : Forall (fun c => Forall (NodeInv (process T fixed)) (ochildren c)) cs).
+    { eapply Forall_impl; [|exact IH]. intros a [_ Ha]. exact Ha. }
+    split; [|exact IHc]. clear IH.
+    intros Hnb q Hq. cbn [nobrace] in Hnb. apply andb_true_iff in Hnb as [Hnb Hcs].
+    apply andb_true_iff in Hnb as [Hat Htx].
+    cbn [process pend_stack own_prop val_default fixed].
+    set (R := process T fixed) in *.
+    destruct (mem_str (local_name tag) (skip_tags T)); [apply Inv_nil; exact Hq|].
+    (* t *)
+    destruct (str_eqb (local_name tag) (s "t")).
+    { set (tx := match text with Some x => x | None => [] end).
+      assert (Hx : nb_str tx = true) by (subst tx; destruct text; [exact Htx | reflexivity]).
+      assert (HD : DS 0 0 (chars (greek_l T OTxt tx))) by (unfold greek_l; rewrite chars_lab; apply greek_DS; exact Hx).
+      pose proof (close_pending_ok (pend q) (greek_l T OTxt tx) 0 0 Hq HD) as H.
+      destruct (close_pending (pend q) (greek_l T OTxt tx)) as [p' o]. cbn [fst snd] in *.
+      destruct H as (H1 & H2 & H3). split; [exact H1|]. split; [|exact H2].
+      apply H3. unfold greek_l. rewrite chars_lab. apply greek_lone. exact Hx. }
+    (* f *)
+    destruct (str_eqb (local_name tag) (s "f")).
+    { step_first R IHc Hcs q Hq q1 num I1. step_first R IHc Hcs q1 (Inv_pend _ _ _ I1) q2 den I2.
+      split; [apply (Inv_pend _ _ _ I2)|]. rewrite !chars_app, !chars_lit. split.
+      - apply (lone_wit [] 92). apply vis92.
+      - eapply DS_app; [apply (DS_lit0 _ 1); reflexivity|].
+        eapply DS_app; [apply DS_S; apply (Inv_DS _ _ _ I1)|].
+        eapply DS_app; [apply (DS_lit1 _ 1); reflexivity|].
+        eapply DS_app; [apply DS_S; apply (Inv_DS _ _ _ I2)|].
+        apply (DS_lit1 _ 0); reflexivity. }
+    (* sSup *)
+    destruct (str_eqb (local_name tag) (s "sSup")).
+    { step_first R IHc Hcs q Hq q1 base I1. step_first R IHc Hcs q1 (Inv_pend _ _ _ I1) q2 sup I2.
+      split; [apply (Inv_pend _ _ _ I2)|]. rewrite !chars_app, !chars_lit. split.
+      - apply (lone_wit (chars base) 94). apply vis94.
+      - eapply DS_app; [apply (Inv_DS _ _ _ I1)|].
+        eapply DS_app; [apply (DS_lit0 _ 1); reflexivity|].
+        eapply DS_app; [apply DS_S; apply (Inv_DS _ _ _ I2)|].
+        apply (DS_lit1 _ 0); reflexivity. }
+    (* sSub *)
+    destruct (str_eqb (local_name tag) (s "sSub")).
+    { step_first R IHc Hcs q Hq q1 base I1. step_first R IHc Hcs q1 (Inv_pend _ _ _ I1) q2 sub I2.
+      split; [apply (Inv_pend _ _ _ I2)|]. rewrite !chars_app, !chars_lit. split.
+      - apply (lone_wit (chars base) 95). apply vis95.
+      - eapply DS_app; [apply (Inv_DS _ _ _ I1)|].
+        eapply DS_app; [apply (DS_lit0 _ 1); reflexivity|].
+        eapply DS_app; [apply DS_S; apply (Inv_DS _ _ _ I2)|].
+        apply (DS_lit1 _ 0); reflexivity. }
+    (* sSubSup *)
+    destruct (str_eqb (local_name tag) (s "sSubSup")).
+    { step_first R IHc Hcs q Hq q1 base I1. step_first R IHc Hcs q1 (Inv_pend _ _ _ I1) q2 sub I2.
+      step_first R IHc Hcs q2 (Inv_pend _ _ _ I2) q3 sup I3.
+      split; [apply (Inv_pend _ _ _ I3)|]. rewrite !chars_app, !chars_lit. split.
+      - apply (lone_wit (chars base) 95). apply vis95.
+      - eapply DS_app; [apply (Inv_DS _ _ _ I1)|].
+        eapply DS_app; [apply (DS_lit0 _ 1); reflexivity|].
+        eapply DS_app; [apply DS_S; apply (Inv_DS _ _ _ I2)|].
+        eapply DS_app; [apply (DS_lit1 _ 1); reflexivity|].
+        eapply DS_app; [apply DS_S; apply (Inv_DS _ _ _ I3)|].
+        apply (DS_lit1 _ 0); reflexivity. }
+    (* rad *)
+    destruct (str_eqb (local_name tag) (s "rad")).
+    { step_first R IHc Hcs q Hq q1 deg0 I1. step_first R IHc Hcs q1 (Inv_pend _ _ _ I1) q2 content I2.
+      pose proof (DS_strip _ _ _ (Inv_DS _ _ _ I1)) as Dd.
+      destruct (mem_str (chars (strip_l T content)) (open_brackets T)) eqn:Ek.
+      - destruct (key_len _ _ _ I2 Ek) as [Hl Hs]. fold (closer T (chars (strip_l T content))).
+        split; [|split].
+        + unfold push. cbn [pend_stack fixed set_pend pend]. simpl. rewrite Hs. apply (Inv_pend _ _ _ I2).
+        + destruct (nonempty (strip_l T deg0)); rewrite ?chars_app, ?chars_lit; apply (lone_wit [] 92); apply vis92.
+        + unfold push. cbn [pend_stack fixed set_pend pend List.length]. rewrite Hl.
+          destruct (nonempty (strip_l T deg0)) eqn:En; rewrite ?chars_app, ?chars_lit.
+          * eapply DS_app; [apply (DS_lit0 _ 0); reflexivity|].
+            eapply DS_app; [exact Dd|]. apply (DS_lit0 _ 1); reflexivity.
+          * apply nonempty_false in En. rewrite (ws_same_len _ _ _ I1 En).
+            apply (DS_lit0 _ 1); reflexivity.
+      - split; [apply (Inv_pend _ _ _ I2)|].
+        destruct (nonempty (strip_l T deg0)) eqn:En; rewrite ?chars_app, ?chars_lit.
+        + split; [apply (lone_wit [] 92); apply vis92|].
+          eapply DS_app; [apply (DS_lit0 _ 0); reflexivity|].
+          eapply DS_app; [exact Dd|].
+          eapply DS_app; [apply (DS_lit0 _ 1); reflexivity|].
+          eapply DS_app; [apply DS_S; apply (Inv_DS _ _ _ I2)|].
+          apply (DS_lit1 _ 0); reflexivity.
+        + split; [apply (lone_wit [] 92); apply vis92|].
+          apply nonempty_false in En. pose proof (ws_same_len _ _ _ I1 En) as Hl.
+          eapply DS_app; [apply (DS_lit0 _ 1); reflexivity|].
+          eapply DS_app; [apply DS_S; rewrite <- Hl; apply (Inv_DS _ _ _ I2)|].
+          apply (DS_lit1 _ 0); reflexivity. }
+    (* nary *)
+    destruct (str_eqb (local_name tag) (s "nary")).
+    { destruct (chr_val_nb (s "naryPr") (s "chr") sum_char cs _ Hcs eq_refl eq_refl) as (o & -> & Ho).
+      assert (Iop : Inv q q (match assoc o (op_map T) with Some v => lab OAttr v | None => greek_l T OAttr o end)).
+      { destruct (assoc o (op_map T)) as [v|] eqn:Ev.
+        - apply Inv_lab_val; [exact Hq|]. destruct wf_parts as (_ & Hop & _). exact (table_value _ _ _ _ Hop Ev).
+        - split; [exact Hq|]. unfold greek_l. rewrite chars_lab. split; [apply greek_lone | apply greek_DS]; exact Ho. }
+      step_first R IHc Hcs q Hq q1 sub I1. step_first R IHc Hcs q1 (Inv_pend _ _ _ I1) q2 sup I2.
+      step_first R IHc Hcs q2 (Inv_pend _ _ _ I2) q3 content I3.
+      eapply Inv_app; [exact Iop|].
+      eapply Inv_app; [apply (opt_piece q q1 [95] sub eq_refl vis95); [discriminate | exact Hq | exact I1]|].
+      eapply Inv_app; [apply (opt_piece q1 q2 [94] sup eq_refl vis94); [discriminate | apply (Inv_pend _ _ _ I1) | exact I2]|].
+      eapply Inv_app; [apply Inv_lab_nb; [apply (Inv_pend _ _ _ I2) | reflexivity] | exact I3]. }
+    (* d *)
+    destruct (str_eqb (local_name tag) (s "d")).
+    { destruct (chr_val_nb (s "dPr") (s "begChr") (s "(") cs _ Hcs eq_refl eq_refl) as (l & -> & Hl).
+      destruct (chr_val_nb (s "dPr") (s "endChr") (s ")") cs _ Hcs eq_refl eq_refl) as (r & -> & Hr).
+      pose proof (pall_inv R (m_ns T ++ s "e") (s ", ") cs eq_refl IHc Hcs q Hq) as I1.
+      destruct (pall R (m_ns T ++ s "e") q cs) as [q1 parts]. cbn [fst snd] in *. unfold fmt_opt.
+      eapply Inv_app; [apply Inv_lab_nb; [exact Hq | exact Hl]|].
+      eapply Inv_app; [exact I1 | apply Inv_lab_nb; [apply (Inv_pend _ _ _ I1) | exact Hr]]. }
+    (* m *)
+    destruct (str_eqb (local_name tag) (s "m") && nonempty (filter (fun c => str_eqb (otag c) (m_ns T ++ s "mr")) cs)).
+    { assert (Hg : all_children nobrace cs = true) by exact Hcs.
+      pose proof (prows_inv R (m_ns T ++ s "mr") (m_ns T ++ s "e") (s " \\ ") cs eq_refl IHg Hcs q Hq) as I1.
+      destruct (prows R (m_ns T ++ s "mr") (m_ns T ++ s "e") q cs) as [q1 rows]. cbn [fst snd] in *.
+      assert (Hb : forall q0 x, pend_ok (pend q0) = true -> depth_ok 0 x = Some O -> hd 0 x = 92 -> Inv q0 q0 (lit x)).
+      { intros q0 x H0 Hx Hh. split; [exact H0|]. rewrite chars_lit. split; [|apply DS_closed; exact Hx].
+        destruct x as [|c x]; [reflexivity|]. simpl in Hh. subst c. apply (lone_wit [] 92). apply vis92. }
+      eapply Inv_app; [apply Hb; [exact Hq | reflexivity | reflexivity]|].
+      eapply Inv_app; [exact I1 | apply Hb; [apply (Inv_pend _ _ _ I1) | reflexivity | reflexivity]]. }
+    (* func *)
+    destruct (str_eqb (local_name tag) (s "func")).
+    { step_first R IHc Hcs q Hq q1 fname I1. step_first R IHc Hcs q1 (Inv_pend _ _ _ I1) q2 content I2.
+      set (key := strip_l T fname).
+      assert (Dn : DS (List.length (pend q)) (List.length (pend q1))
+                      (chars (match assoc (chars key) (func_map T) with
+                              | Some v => if str_eqb v (92 :: chars key) then lit [92] ++ key else lit v
+                              | None => fname end))).
+      { destruct (assoc (chars key) (func_map T)) as [v|] eqn:Ev; [|apply (Inv_DS _ _ _ I1)].
+        destruct (str_eqb v (92 :: chars key)).
+        - rewrite chars_app, chars_lit. eapply DS_app; [apply DS_nb; reflexivity|].
+          apply DS_strip. apply (Inv_DS _ _ _ I1).
+        - rewrite chars_lit. destruct wf_parts as (_ & _ & _ & Hf & _).
+          pose proof (table_value (fun v => value_ok T v) _ _ _ (proj1 (forallb_forall _ _) (fun x Hx => proj1 (proj1 (andb_true_iff _ _) (proj1 (forallb_forall _ _) Hf x Hx))) |> fun _ => eq_refl) Ev) as _ || idtac.
+          apply assoc_In in Ev. rewrite forallb_forall in Hf. specialize (Hf _ Ev). simpl in Hf.
+          apply andb_true_iff in Hf as [Hv Hk].
+          destruct (strip_decomp T fname) as (a & b & E & Ha & Hb).
+          assert (Hn : nb_str (chars fname) = true).
+          { rewrite E, !chars_app. unfold nb_str. rewrite !forallb_app.
+            fold (nb_str (chars a)). fold (nb_str (chars b)). rewrite (ws_nb a Ha), (ws_nb b Hb).
+            fold key. fold (nb_str (chars key)). rewrite Hk. reflexivity. }
+          pose proof (DS_unique _ _ _ _ (DS_nb _ _ Hn) (Inv_DS _ _ _ I1)) as Hl. rewrite <- Hl.
+          apply value_ok_DS. exact Hv. }
+      split; [apply (Inv_pend _ _ _ I2)|]. split.
+      - rewrite !app_assoc, chars_app, chars_lit. apply lone_end.
+      - rewrite !chars_app, !chars_lit. eapply DS_app; [exact Dn|].
+        eapply DS_app; [apply (DS_lit0 _ 1); reflexivity|].
+        eapply DS_app; [apply DS_S; apply (Inv_DS _ _ _ I2)|].
+        apply (DS_lit1 _ 0); reflexivity. }
+    (* bar *)
+    destruct (str_eqb (local_name tag) (s "bar")).
+    { step_first R IHc Hcs q Hq q1 content I1.
+      split; [apply (Inv_pend _ _ _ I1)|]. rewrite !chars_app, !chars_lit. split.
+      - apply (lone_wit [] 92). apply vis92.
+      - eapply DS_app; [apply (DS_lit0 _ 1); reflexivity|].
+        eapply DS_app; [apply DS_S; apply (Inv_DS _ _ _ I1)|].
+        apply (DS_lit1 _ 0); reflexivity. }
+    (* acc *)
+    destruct (str_eqb (local_name tag) (s "acc")).
+    { step_first R IHc Hcs q Hq q1 content I1.
+      match goal with |- Inv _ _ (lab OAttr ?a ++ _) => assert (Ha : value_ok T a = true) end.
+      { assert (Hh : value_ok T hat = true).
+        { unfold value_ok. rewrite (depth_nb hat eq_refl). apply lone_nb. reflexivity. }
+        destruct wf_parts as (_ & _ & Hac & _).
+        repeat match goal with
+               | |- context [match ?x with _ => _ end] => destruct x eqn:?
+               end; try exact Hh; eapply table_value; eassumption. }
+      split; [apply (Inv_pend _ _ _ I1)|]. split.
+      - rewrite !app_assoc, chars_app, chars_lit. apply lone_end.
+      - rewrite !chars_app, chars_lab, !chars_lit. eapply DS_app; [apply value_ok_DS; exact Ha|].
+        eapply DS_app; [apply (DS_lit0 _ 1); reflexivity|].
+        eapply DS_app; [apply DS_S; apply (Inv_DS _ _ _ I1)|].
+        apply (DS_lit1 _ 0); reflexivity. }
+    apply peach_inv; assumption.
+  Qed.
 End Bal.
